@@ -232,6 +232,14 @@ pub fn request(name: &str, params: &[u64], rig: &Rig, ins: &[InSpec], acts: &[Ac
         s += &format!(" {p}");
     }
     for (j, i) in ins.iter().enumerate() {
+        if let Some(d) = &i.fixed {
+            // literal input data
+            s += &format!(" ; L {}", rig.ins[j].cap());
+            for v in d {
+                s += &format!(" {v}");
+            }
+            continue;
+        }
         s += &format!(" ; I {} {} {} {}", rig.ins[j].cap(), i.len, i.seed, i.m);
         for t in &i.tbl {
             s += &format!(" {t}");
